@@ -414,8 +414,29 @@ fn count_defs(s: &RSchema, recs: &mut Vec<String>, enums: &mut Vec<String>, fixe
 	}
 }
 
+fn valid_fullname(n: &str) -> bool {
+	!n.is_empty()
+		&& n.split('.').all(|part| {
+			let mut cs = part.chars();
+			cs.next().map_or(false, |c| c.is_ascii_alphabetic() || c == '_') && cs.all(|c| c.is_ascii_alphanumeric() || c == '_')
+		})
+}
+
 fn branch_name(s: &RSchema, env: &Env) -> String {
 	let r = env.resolve(s);
+	// branches with a logical type are known to the crate by the PascalCase logical name, except
+	// where a named fixed carries the identity (decimal on fixed, unknown logical types)
+	match (r.logical_type(), r.base()) {
+		(Some(Logical::Duration), _) => return "Duration".into(),
+		(Some(Logical::Uuid), _) => return "Uuid".into(),
+		(Some(Logical::Date), _) => return "Date".into(),
+		(Some(Logical::TimeMillis), _) => return "TimeMillis".into(),
+		(Some(Logical::TimeMicros), _) => return "TimeMicros".into(),
+		(Some(Logical::TimestampMillis), _) => return "TimestampMillis".into(),
+		(Some(Logical::TimestampMicros), _) => return "TimestampMicros".into(),
+		(Some(Logical::Decimal { .. }), RSchema::Bytes) => return "Decimal".into(),
+		_ => {}
+	}
 	match r.base() {
 		RSchema::Null => "Null".into(),
 		RSchema::Boolean => "Boolean".into(),
@@ -666,6 +687,10 @@ fn judge(f: &Family, o: Option<&FamOut>, only_value: Option<usize>, verbose: boo
 			Ok(rs) => {
 				let (mut recs, mut enums, mut fixed) = (vec![], vec![], vec![]);
 				count_defs(&rs, &mut recs, &mut enums, &mut fixed);
+				let bad: Vec<&String> = recs.iter().chain(&enums).chain(&fixed).filter(|n| !valid_fullname(n)).collect();
+				if !bad.is_empty() {
+					viol("invalid-fullname", format!("the schema defines names that are not Avro fullnames (dot-separated [A-Za-z_][A-Za-z0-9_]* parts): {bad:?}: {js}"), None);
+				}
 				let (er, ee) = placed.expected_named();
 				if recs.len() != er || enums.len() != ee {
 					viol(
@@ -806,7 +831,7 @@ pub fn run(rep: &mut Report) {
 	rep.extra.insert("generated_workspace".into(), json!(gen_dir().display().to_string()));
 	let cfgs = c20_enum::grammar_cfgs(thorough);
 	rep.rule = format!(
-		"SAE over programs x values. Programs: ALL type-definition programs of the grammar (root = named struct of 1-3 fields | newtype struct | unit-only enum of 1|3 symbols | enum of 1-3 newtype variants with no / first / last unit variant `Null`; type expressions = leaf | Option | Vec | BTreeMap<String,_> | Box | new struct | new newtype struct | new unit-only enum | new union enum | generic G<T>{{a:T,b:Vec<T>}} | shared use of an earlier type | recursive use of an enclosing struct guarded by Option/Vec/Map + heap indirection; serde_bytes Vec<u8> / [u8;4] / Option<Vec<u8>> at field positions) enumerated by the odometer with {}; constraint-violating programs (Option of nullable, two variants on one branch, union in union) are rejected, not judged; plus {} hand-listed sweep programs beyond the bound (every leaf type i32 i64 u16 u32 u64 i8 i16 usize bool f32 f64 String () bytes [u8;0|1|4|16] in every position kind, Box/Rc/Arc/&str/&[u8], HashMap/BTreeMap, every logical-type attribute incl. implicit/bytes/fixed decimals and duration, name/namespace overrides incl. the empty namespace, same-named types in two modules, three generic shapes instantiated at all pairs of argument types, generic structs whose logical-typed field owns a named fixed at two instantiations, every logical attribute next to plain uses of its base type in both orders and one level down, both spellings of the logical names, 19 recursion shapes incl. mutual recursion and recursion through union enums and generic arguments, wide records/enums/unions). Every program is one module of a generated crate compiled against the current derive crates. Values: exhaustive over leaf boundary sets, collections of 0-2 elements (all ordered pairs up to 32 element values, consecutive pairs above), HashMap 0-1 entries, recursion depth <= 2, full cartesian product of fields up to 4096 tuples (star product above), unsigned leaves up to the range of their Avro type. Oracle per program: schema() Ok twice with equal JSON and fingerprint; JSON resolves under the reference resolver (one definition per fullname, no dangling reference; leading-dot references to the null namespace accepted); number of record / enum definitions = number of distinct struct types or instantiations / unit-only enums reachable from the root (modulo the derive's documented lookup equivalence u16=i32, Box<T>=T ...). Per value: to_datum_vec Ok; the reference decoder consumes exactly the bytes and the datum denotes the described value under the DERIVED schema (field names, union branch by Avro name, enum symbol, decimal unscaled value; a position declared with a logical-type attribute carries exactly that logicalType in the schema, a position declared without one carries none); from_datum_slice::<T> returns a value equal by PartialEq and by description (float bits). Non-trivial: the program has >= 2 type definitions or the encoding has >= 2 bytes; distinct on (program, value index).",
+		"SAE over programs x values. Programs: ALL type-definition programs of the grammar (root = named struct of 1-3 fields | newtype struct | unit-only enum of 1|3 symbols | enum of 1-3 newtype variants with no / first / last unit variant `Null`; type expressions = leaf | Option | Vec | BTreeMap<String,_> | Box | new struct | new newtype struct | new unit-only enum | new union enum | generic G<T>{{a:T,b:Vec<T>}} | shared use of an earlier type | recursive use of an enclosing struct guarded by Option/Vec/Map + heap indirection; serde_bytes Vec<u8> / [u8;4] / Option<Vec<u8>> at field positions) enumerated by the odometer with {}; constraint-violating programs (Option of nullable, two variants on one branch, union in union) are rejected, not judged; plus {} hand-listed sweep programs beyond the bound (every leaf type i32 i64 u16 u32 u64 i8 i16 usize bool f32 f64 String () bytes [u8;0|1|4|16] in every position kind, Box/Rc/Arc/&str/&[u8], HashMap/BTreeMap, every logical-type attribute incl. implicit/bytes/fixed decimals and duration, name/namespace overrides incl. the empty namespace, same-named types in two modules, three generic shapes instantiated at all pairs of argument types, generic structs whose logical-typed field owns a named fixed at two instantiations, every logical attribute next to plain uses of its base type in both orders and one level down, both spellings of the logical names, the namespace attribute (absent | ns1 | a.b | empty) on every kind of type that owns named sub-nodes, 19 recursion shapes incl. mutual recursion and recursion through union enums and generic arguments, wide records/enums/unions). Every program is one module of a generated crate compiled against the current derive crates. Values: exhaustive over leaf boundary sets, collections of 0-2 elements (all ordered pairs up to 32 element values, consecutive pairs above), HashMap 0-1 entries, recursion depth <= 2, full cartesian product of fields up to 4096 tuples (star product above), unsigned leaves up to the range of their Avro type. Oracle per program: schema() Ok twice with equal JSON and fingerprint; JSON resolves under the reference resolver (one definition per fullname, every defined fullname is a dot-separated sequence of [A-Za-z_][A-Za-z0-9_]* names, no dangling reference; leading-dot references to the null namespace accepted); number of record / enum definitions = number of distinct struct types or instantiations / unit-only enums reachable from the root (modulo the derive's documented lookup equivalence u16=i32, Box<T>=T ...). Per value: to_datum_vec Ok; the reference decoder consumes exactly the bytes and the datum denotes the described value under the DERIVED schema (field names, union branch by Avro name, enum symbol, decimal unscaled value; a position declared with a logical-type attribute carries exactly that logicalType in the schema, a position declared without one carries none); from_datum_slice::<T> returns a value equal by PartialEq and by description (float bits). Non-trivial: the program has >= 2 type definitions or the encoding has >= 2 bytes; distinct on (program, value index).",
 		cfgs.iter().map(|c| format!("<= {} nodes over the {} alphabet (leaves {:?}, field leaves {:?}, map {}, generic {})", c.max_nodes, c.label, c.leaves, c.field_leaves, c.map, c.generic)).collect::<Vec<_>>().join(" and "),
 		l.per_source.last().map_or(0, |s| s.1),
 	);
